@@ -12,7 +12,7 @@ static int pos;		/* token cursor */
 static const char *tok(void) { return pos < vh_ntok ? vh_tok[pos++] : ""; }
 static long tl(void) { return vh_parse_long(tok()); }
 static double td(void) { return vh_parse_double(tok()); }
-static double complex tc(void) { double r = td(); double i = td(); return r + I * i; }
+static double complex tc(void) { double r = td(); double i = td(); return CMPLX(r, i); }
 static bool more(void) { return pos < vh_ntok; }
 
 static void res(bool ok, long value)
